@@ -32,7 +32,7 @@ func runC10(c *Ctx) {
 	c10R4(c)
 	interpreterState(c, "R6")
 	entryArgsReadOnly(c, "R7")
-	c.shared("R8", "C14/R2", "the output is a function of the input bytes, not of the kind of file they come from: the interpreter's decoder reads the opened file (or standard input) itself — no read-ahead sized by Stat(), which a pipe, a device or a file that grows answers differently", keyHas("input-files", "stdin-only"), c14R2)
+	c.shared("R8", "C14/R2", "the output is a function of the input bytes, not of the kind of file they come from: the interpreter's decoder reads the opened file (or standard input) itself — no read-ahead sized by Stat(), which a pipe, a device or a file that grows answers differently", keyHas("input-files", "stdin-only", "reader-wrapper", "stdout"), c14R2)
 }
 
 // entryArgsReadOnly (R7): a run is a function of the arguments given. The slices handed to the
@@ -120,6 +120,15 @@ func interpreterState(c *Ctx, rule string) {
 		allInstrs(fn, func(in ssa.Instruction) {
 			switch x := in.(type) {
 			case *ssa.Store:
+				// an element of a list that hangs off a syntax-tree node (the cases of a match, the
+				// statements of a block) is part of the tree as well
+				if ia, isIdx := x.Addr.(*ssa.IndexAddr); isIdx && !isParserFn {
+					if lf, isLoad := loadedField(ia.X); isLoad && lf.Struct != nil && isSyntaxNodeName(lf.Struct.Obj().Name()) && lf.Struct.Obj().Pkg() == p.Lang.Types {
+						n++
+						c.violated(rule, "syntax-tree-store "+lf.Struct.Obj().Name()+"."+lf.Name+"[] in "+shortName(fn), p.InstrPos(x), "an element of the list "+lf.Struct.Obj().Name()+"."+lf.Name+" of a syntax-tree node is written outside the parser: the tree (the order of a match's cases, a block's statements) changes while the program runs, so what an expression yields depends on the evaluations before it")
+					}
+					return
+				}
 				sf, ok := fieldOfAddr(x.Addr)
 				if !ok || sf.Struct == nil {
 					return
